@@ -5,6 +5,7 @@ import (
 	"flag"
 	"fmt"
 	"os"
+	"runtime"
 	"strings"
 	"testing"
 	"testing/synctest"
@@ -161,7 +162,14 @@ func TestSim(t *testing.T) {
 			*fFree = true
 		}
 		emit(map[string]any{"begin": rf.Seed})
+		wd := time.AfterFunc(*fWatchdog, func() {
+			fmt.Fprintf(os.Stderr, "WATCHDOG: replay of seed %d exceeded %s of wall time\n", rf.Seed, *fWatchdog)
+			os.Exit(3)
+		})
+		dl := watchMutexDeadlock(rf.Seed)
 		res := runOne(t, cfg, tape.Replay(rf.Seed, rf.Tape), rf.Seed)
+		wd.Stop()
+		dl.Stop()
 		emit(res)
 		return
 	}
@@ -183,6 +191,10 @@ func TestSim(t *testing.T) {
 			fmt.Fprintf(os.Stderr, "WATCHDOG: run of seed %d exceeded %s of wall time\n", seed, *fWatchdog)
 			os.Exit(3)
 		})
+		// a goroutine of the code under test that waits for a mutex for seconds waits forever (lock
+		// holders are never parked in the plain build, and the instrumented build parks lock waiters
+		// in the simulator): that is a deadlock in the code under test, reported like a crash
+		dl := watchMutexDeadlock(seed)
 		var res scen.Result
 		if *fFree {
 			// under the race detector the testing package fails (and leaves) the test function in
@@ -195,6 +207,7 @@ func TestSim(t *testing.T) {
 			res = runOne(t, cfg, tape.New(seed), seed)
 		}
 		wd.Stop()
+		dl.Stop()
 		if res.Verdict == "ok" {
 			if !res.Nontrivial || kept >= *fSamples {
 				res.Sample = nil
@@ -205,4 +218,46 @@ func TestSim(t *testing.T) {
 		emit(res)
 	}
 	emit(map[string]any{"end": true})
+}
+
+// mutexWaiters returns the stacks of goroutines that wait for a sync mutex and have a frame of the
+// code under test, keyed by goroutine id.
+func mutexWaiters() map[string]string {
+	buf := make([]byte, 4<<20)
+	n := runtime.Stack(buf, true)
+	out := map[string]string{}
+	for _, blk := range strings.Split(string(buf[:n]), "\n\n") {
+		nl := strings.Index(blk, "\n")
+		if nl < 0 {
+			continue
+		}
+		head := blk[:nl]
+		if !strings.HasPrefix(head, "goroutine ") || !(strings.Contains(head, "sync.Mutex.Lock") || strings.Contains(head, "sync.RWMutex")) {
+			continue
+		}
+		if !strings.Contains(blk, "github.com/buildbuildio/pebbles") {
+			continue
+		}
+		out[strings.Fields(head)[1]] = blk
+	}
+	return out
+}
+
+func watchMutexDeadlock(seed uint64) *time.Timer {
+	var t *time.Timer
+	t = time.AfterFunc(8*time.Second, func() {
+		first := mutexWaiters()
+		if len(first) > 0 {
+			time.Sleep(2 * time.Second)
+			second := mutexWaiters()
+			for id, blk := range second {
+				if _, still := first[id]; still {
+					fmt.Fprintf(os.Stderr, "panic: deadlock: a goroutine of the code under test has been waiting for a mutex for seconds (seed %d)\n\n%s\n\n", seed, blk)
+					os.Exit(2)
+				}
+			}
+		}
+		t.Reset(8 * time.Second)
+	})
+	return t
 }
